@@ -196,10 +196,11 @@ theorem evalCond_mono (c : Ctx) (cd : CondSpec) : CMono c (evalCond c cd).1 := b
   unfold evalCond
   by_cases h1 : (!cd.hlp.isEmpty && cd.lc == 0) = true
   · simp only [h1, if_true]
-    have hm := collectHlpArgs_mono cd.hlpArg c
-    cases applyCondFn cd.hlp (collectHlpArgs c cd.hlpArg).1 with
+    have hm : CMono c (collectHlpArgs c.clrErr cd.hlpArg).2 :=
+      (CMono.of_eq rfl rfl rfl : CMono c c.clrErr).trans (collectHlpArgs_mono cd.hlpArg c.clrErr)
+    cases applyCondFn cd.hlp (collectHlpArgs c.clrErr cd.hlpArg).1 with
     | none => exact hm
-    | some b => simp only; cases (collectHlpArgs c cd.hlpArg).2.err <;> exact hm
+    | some b => simp only; cases (collectHlpArgs c.clrErr cd.hlpArg).2.err <;> exact hm
   · simp only [h1, Bool.false_eq_true, if_false]
     by_cases h2 : (!cd.hlp.isEmpty) = true
     · simp only [h2, if_true]
@@ -243,10 +244,11 @@ theorem evalCase_mono (c : Ctx) (arg : Bytes) (k : CaseSpec) : CMono c (evalCase
   · simp only [h1, Bool.false_eq_true, if_false]
     by_cases h2 : (!k.hlp.isEmpty) = true
     · simp only [h2, if_true]
-      have hm := collectHlpArgs_mono k.hlpArg c
-      cases applyCondFn k.hlp (collectHlpArgs c k.hlpArg).1 with
+      have hm : CMono c (collectHlpArgs c.clrErr k.hlpArg).2 :=
+        (CMono.of_eq rfl rfl rfl : CMono c c.clrErr).trans (collectHlpArgs_mono k.hlpArg c.clrErr)
+      cases applyCondFn k.hlp (collectHlpArgs c.clrErr k.hlpArg).1 with
       | none => exact hm
-      | some b => simp only; cases (collectHlpArgs c k.hlpArg).2.err <;> exact hm
+      | some b => simp only; cases (collectHlpArgs c.clrErr k.hlpArg).2.err <;> exact hm
     · simp only [h2, Bool.false_eq_true, if_false]
       have hm := nodeCmp_mono c k.l k.r k.staticL k.staticR k.op
       cases (nodeCmp c k.l k.r k.staticL k.staticR k.op).2.1 with
